@@ -32,9 +32,10 @@ def run(tier, seed):
         if r['status'] == 'tool':
             ur.tool_errors.append('text harness %s: %s' % (h, r['detail'][-1200:]))
             continue
+        hit = kani_engine.failed_clauses(text, r) if r['status'] == 'failed' else set()
         for cl in clauses:
             ob = Oblig(cl, {'C17', 'C01'}, 'kani-assert', 'util::{Df88591String, ArrayString} (%s)' % h, scope)
-            if r['status'] == 'failed':
+            if r['status'] == 'failed' and (cl in hit or not (hit & set(clauses))):
                 ob.failed = [r['detail'][-1500:]]
             ur.obligs.append(ob)
         if scope.startswith('bounded'):
